@@ -46,6 +46,10 @@ class HarnessError(Exception):
     pass
 
 
+class BudgetExhausted(KeyboardInterrupt):
+    """Stops a Hypothesis run at once (not an Exception: Hypothesis lets it through unshrunk)."""
+
+
 def setup_path():
     src = os.path.join(REPO, 'src')
     if not os.path.isdir(os.path.join(src, 'engineio')):
@@ -166,11 +170,11 @@ def run_given(ctx, strategy, body, max_examples, shrink_s=None, rounds=4, label=
 
         def test(value):
             if ctx.over_budget() and state['best'] is None:
-                return
+                raise BudgetExhausted()
             if state['first_fail_t'] is not None and \
                     time.time() - state['first_fail_t'] > shrink_s:
                 state['gave_up'] = True
-                return                      # stop shrinking: everything "passes" from now on
+                raise BudgetExhausted()     # stop shrinking: the best failure so far is kept
             try:
                 body(value)
             except Violation as v:
@@ -191,6 +195,8 @@ def run_given(ctx, strategy, body, max_examples, shrink_s=None, rounds=4, label=
             phases=[Phase.generate, Phase.shrink])(given(strategy)(test)))
         try:
             test()
+        except BudgetExhausted:
+            pass
         except Violation:
             pass
         except hypothesis.errors.Flaky:
